@@ -88,7 +88,7 @@ def monitor_inproc(c):
     out = []
     if c.get("infra"):
         return [("driver could not run the case: " + c["infra"], {"class": "infra"})]
-    stop = c["kind"] == "stop" and c["t_stop"] >= 0
+    stop = c["kind"] in ("stop", "stopcommit") and c["t_stop"] >= 0
     ev = {}
     for e in c["exec"]:
         ev.setdefault(e["name"], []).append(e)
@@ -132,7 +132,11 @@ def monitor_inproc(c):
         for n in s["nodes"] + [h for h in s["h"].values() if h]:
             es = ev.get(n["name"], [])
             if n["st"] == FINISHED and not any(e["ok"] and 0 <= e["t1"] <= t1 for e in es):
-                out.append(("step %s reported finished before its command had ended" % n["name"], {"class": "live-early-finished"}))
+                if stop and not es:
+                    out.append(("step %s reported finished although the run was stopped before its command ever ran" % n["name"],
+                                {"class": "stop-committed-step-finished"}))
+                else:
+                    out.append(("step %s reported finished before its command had ended" % n["name"], {"class": "live-early-finished"}))
             if n["st"] == FAILED and not any((not e["ok"]) and 0 <= e["t1"] <= t1 for e in es):
                 out.append(("step %s reported failed but no attempt had failed" % n["name"], {"class": "live-early-failed"}))
             if stop and t1 >= c["t_stop"]:
@@ -150,7 +154,12 @@ def monitor_inproc(c):
     if c.get("latest_err") or L is None or F is None:
         out.append(("no final status could be read after the run: %s" % c.get("latest_err"), {"class": "final-missing"}))
         return out
-    if not same_status(L, F) or not same_status(c["by_req"], F):
+    if stop and fw is not None and not stale and same_status(L, fw["st"]) and same_status(c["by_req"], fw["st"]) \
+            and table(L) == table(F) and F["st"] == CANCELED:
+        # the stop request was delivered when the run was already over: the cancel flag was set after the final status had
+        # been written; what is persisted is what the run's main thread saw last
+        pass
+    elif not same_status(L, F) or not same_status(c["by_req"], F):
         stale = stale_after_final(c)
         which = L if not same_status(L, F) else c["by_req"]
         cls = {"class": "final-differs"}
@@ -183,7 +192,10 @@ def monitor_inproc(c):
                 out.append(("step %s was killed by the stop request but recorded as %s" % (n["name"], n["text"]), {"class": "final-state"}))
         elif is_step:
             ok = (CANCELED, SKIPPED, NONE) if stop else (CANCELED, SKIPPED)
-            if n["st"] not in ok or n["rc"] != 0:
+            if stop and n["st"] == FINISHED:
+                out.append(("step %s is recorded as finished although the run was stopped before its command ever ran" % n["name"],
+                            {"class": "stop-committed-step-finished"}))
+            elif n["st"] not in ok or n["rc"] != 0:
                 out.append(("step %s never executed but is recorded as %s" % (n["name"], n["text"]), {"class": "final-state"}))
     if F["st"] == FINISHED and any(n["st"] not in DONE_OK for n in F["nodes"]):
         out.append(("run recorded as finished but a step is %s" % [n["text"] for n in F["nodes"] if n["st"] not in DONE_OK][0], {"class": "final-overall"}))
@@ -231,9 +243,30 @@ def coq_node(n):
     return "(%d, %d)" % (n["st"], n["rc"])
 
 
-def coq_snap(p, hc, he):
-    """hc / he: hints for the cancel flag and lastError (0 false, 1 true, 2 unknown)"""
-    return "(%d, (%d, %d), %s)" % (p["st"], hc, he, vlib.clist([coq_node(n) for n in p["nodes"]]))
+PIN_US = 60000      # a status counts as settled when the executor's last event for the step is this much older than the snapshot
+
+
+def pins_of(c, w, after_stop):
+    """per node: does the executor's ground truth say the node held this status for a while when the snapshot was taken?"""
+    out = []
+    t = w["t0"]
+    for n in w["st"]["nodes"]:
+        es = [e for e in c["exec"] if e["name"] == n["name"]]
+        pin = False
+        if not after_stop:
+            if n["st"] == RUNNING:
+                pin = any(e["t0"] < t - PIN_US and (e["t1"] < 0 or e["t1"] > t + 1000) for e in es)
+            elif n["st"] in (FAILED, FINISHED):
+                pin = bool(es) and all(0 <= e["t1"] < t - PIN_US for e in es)
+            elif n["st"] == NONE:
+                pin = n["rc"] == 0 and not any(e["t0"] < t + 1000 for e in es)
+        out.append(pin)
+    return out
+
+
+def coq_snap(p, hc, he, pins):
+    """hc / he: hints for the cancel flag and lastError (0 false / as the model has it, 1 true, 2 unknown)"""
+    return "(%d, (%d, %d), %s, %s)" % (p["st"], hc, he, vlib.clist([coq_node(n) for n in p["nodes"]]), vlib.clist([vlib.cbool(b) for b in pins]))
 
 
 def role_of(c, w):
@@ -250,7 +283,7 @@ def role_of(c, w):
 
 def coq_case(c):
     """(nsteps, writes in file order as (role, snapshot), live answers in time order)"""
-    stop = c["kind"] == "stop" and c["t_stop"] >= 0
+    stop = c["kind"] in ("stop", "stopcommit") and c["t_stop"] >= 0
     ws = [w for w in c["writes"] if not w.get("dropped") and not w.get("err")]
     ws.sort(key=lambda w: (w["t2"], w["seq"]))
     out = []
@@ -269,11 +302,17 @@ def coq_case(c):
             he = 2
         if after_stop:
             he = 2
-        out.append("(%d, %s)" % (role_of(c, w), coq_snap(s, hc, he)))
+        out.append("(%d, %s)" % (role_of(c, w), coq_snap(s, hc, he, pins_of(c, w, after_stop))))
     lives = []
+    ts = [e["t0"] for e in c["exec"]]
+    te = [e["t1"] for e in c["exec"]]
+    first0 = min(ts) if ts else None
+    last1 = max(te) if te and all(t >= 0 for t in te) else None
     for p in c["polls"]:
-        if p.get("err") or p["st"] is None or p["t0"] < c["t_run0"] or p["t1"] > c["t_run1"]:
+        if p.get("err") or p["st"] is None or first0 is None or last1 is None:
             continue
+        if not (p["t0"] > first0 and p["t1"] < last1):
+            continue      # only answers obtained while the run was in progress: those come through the socket
         s = p["st"]
         if s["req"] != c["req"]:
             continue
@@ -490,13 +529,17 @@ class Crash:
 def boundary(log, sysc):
     """which call of the run the injected SIGKILL landed on (from the strace log)"""
     last = None
+    hit = None
     try:
         for ln in open(log, errors="replace"):
             m = re.match(r"\d+\s+%s\((.*)" % sysc, ln)
             if m:
                 last = m.group(1)
+                if ln.rstrip().endswith("= ?"):      # the call that never returned: the tracee was killed on entering it
+                    hit = m.group(1)
     except OSError:
         return None
+    last = hit or last
     if last is None:
         return sysc + ":?"
     a = last
